@@ -241,8 +241,12 @@ def extract_iter(
         else:
             # Only inserting new items into the stack trace; since
             # next_inner is in both `items` and `to_unwrap`, remove it
-            # from the latter
-            to_unwrap.popleft()
+            # from the latter (unless this is the innermost frame and
+            # next_inner is None, in which case nothing was queued)
+            if to_unwrap:
+                to_unwrap.popleft()
+            else:
+                items = items[:-1]
         for item in reversed(items):
             to_unwrap.appendleft((better_origin(item, None), item, depth))
 
